@@ -400,7 +400,7 @@ def _callee(ix, fi, call):
     return None, False
 
 
-def inline_helpers(ix, fi, depth: int = 2):
+def inline_helpers(ix, fi, depth: int = 2, skip=()):
     """A fresh FunctionDef for `fi` in which expression statements that call a private, value-less helper of the same
     class/module (`self._h(a, b)` / `_h(a, b)`, name starting with '_', no `return <value>`) are replaced by the
     helper's body with parameters substituted.  Parents are set on the result so `resolve`/`facts_at` work on it.
@@ -409,7 +409,7 @@ def inline_helpers(ix, fi, depth: int = 2):
 
     def expandable(call):
         g, is_method = _callee(ix, fi, call)
-        if g is None or not g.name.startswith("_") or g.name.startswith("__") or not isinstance(g.node, ast.FunctionDef):
+        if g is None or not g.name.startswith("_") or g.name.startswith("__") or not isinstance(g.node, ast.FunctionDef) or g.name in skip:
             return None
         if any(isinstance(r, ast.Return) and r.value is not None and not (isinstance(r.value, ast.Constant) and r.value.value is None) for r in walk_local(g.node)):
             return None
